@@ -3,8 +3,10 @@
 Model: spec/Core.tla — reference static rules (Accept) and dynamic semantics (Run) of Core Incan
 (ints, dyadic floats, bools, strs, lists; all operators with explicit grouping; calls with observable
 evaluation order; scope rules; control flow; canonical errors), using PyArith / PySeq for the kernels.
- TLC: GenExpr (every expression to the depth bound in a fixed environment) and GenProg (statement
- programs built by a frame machine) enumerate / simulate programs; `Sound` (an accepted program never
+ TLC: GenExpr (every expression to the depth bound in a fixed environment), GenProg (statement
+ programs built by a frame machine), GenData (models, enums, Option / Result, match, `?`) and GenCtl
+ (if / elif / else and statement-level match chains with effectful conditions and one jump, inside every
+ loop context) enumerate / simulate programs; `Sound` (an accepted program never
  gets stuck) is checked on every generated program; each case is printed with Run(p) and feature tags.
 Binding:
  B1  render -> self-check (parse(render(t)) == t) -> real `incan build` (batched) -> run -> stdout
@@ -48,12 +50,15 @@ def run(ctx):
         common.require_tlc_ok(ctx, gp, "GenProg / Sound")
         gd = common.tlc(ctx, "GenData", cfg="GenData", workers=8, timeout=3000)
         common.require_tlc_ok(ctx, gd, "GenData / Sound / NonExhaustiveRejected")
+        gc = common.tlc(ctx, "GenCtl", cfg="GenCtl_quick" if ctx.quick else "GenCtl_full", workers=8, timeout=6000)
+        common.require_tlc_ok(ctx, gc, "GenCtl / Sound")
         sim_rows = []
         if n_sim:
             gs = common.tlc(ctx, "GenProg", cfg="GenProg_s3", workers=8, timeout=1500, simulate=n_sim, depth=14)
             sim_rows = gs["cases"]["CASE"]
     erows, prows = ge["cases"]["CASE"], gp["cases"]["CASE"]
-    universe = len(erows) + len(prows) + len(gd["cases"]["CASE"])
+    crows = gc["cases"]["CASE"]
+    universe = len(erows) + len(prows) + len(gd["cases"]["CASE"]) + len(crows)
 
     def pick(rows, n):
         # stratified by feature-tag set so that every operator / construct is represented
@@ -61,7 +66,7 @@ def run(ctx):
             return list(rows)
         buckets = {}
         for r in rows:
-            key = tuple(sorted(t for t in r["feats"] if t.startswith(("bin:", "un:", "call:", "index:", "slice-shape:", "stmt:", "grp:", "match:", "pat:", "arm:", "data:", "subject:"))))
+            key = tuple(sorted(t for t in r["feats"] if t.startswith(("bin:", "un:", "call:", "index:", "slice-shape:", "stmt:", "grp:", "match:", "pat:", "arm:", "data:", "subject:", "ctl:", "ctx:", "jump", "cond:", "matchform:"))))
             buckets.setdefault(key, []).append(r)
         keys = sorted(buckets)
         rnd.shuffle(keys)
@@ -88,10 +93,12 @@ def run(ctx):
     drows = gd["cases"]["CASE"]
     cases += [pipeline.data_case(r, k) for k, r in enumerate(pick(drows, 110 if ctx.quick else 1396))]
     cases += [pipeline.prog_case(r, k, prefix="s") for k, r in enumerate(uniq_sim[:n_sim])]
+    cases += [pipeline.ctl_case(r, k) for k, r in enumerate(pick(crows, 300 if ctx.quick else 6000))]
     with ctx.timed("self_check"):
         rej = pipeline.self_check_exprs(ctx, [c for c in cases if c["kind"] == "expr"])
         rej.update(pipeline.self_check_progs(ctx, [c for c in cases if c["kind"] == "prog"]))
         rej.update(pipeline.self_check_data(ctx, [c for c in cases if c["kind"] == "data"]))
+        pipeline.self_check_ctl(ctx, [c for c in cases if c["kind"] == "ctl"])
     for cid, err in rej.items():
         c = next(x for x in cases if x["id"] == cid)
         ctx.fail("parse:rendered-program-rejected", {"src": c["body"], "err": err}, "a documented form does not parse", tags=c["tags"])
@@ -103,12 +110,12 @@ def run(ctx):
     for c, e in zip(cases, ev):
         sym = e["symptom"]
         stats[e["stage"] + (":" + sym if sym else ":ok")] = stats.get(e["stage"] + (":" + sym if sym else ":ok"), 0) + 1
-        src = " ; ".join(c["body"][-4:]) if c["kind"] in ("prog", "data") else c["body"][-1]
+        src = " ; ".join(c["body"][-4:]) if c["kind"] in ("prog", "data") else (c["decls"] if c["kind"] == "ctl" else c["body"][-1])
         if e["stage"] in ("ran", "abort"):
             n_ran += 1
             distinct.add(src)
             if sym:
-                ctx.fail(sym, {"src": c["body"], "detail": e["detail"], "expected": [render.value_text(v) for v in c["expect"]["out"]],
+                ctx.fail(sym, {"src": c["body"], "decls": c["decls"] if c["kind"] == "ctl" else "", "detail": e["detail"], "expected": [render.value_text(v) for v in c["expect"]["out"]],
                                "expected_status": c["expect"]["status"], "expected_err": c["expect"]["err"]},
                          "compiled behaviour differs from the specification's Run(p)", tags=c["tags"])
         # emit / build / check stages: not C01's verdict (C02 judges them)
